@@ -16,6 +16,10 @@ var instPool = []string{
 	"a:1", "a-1",
 	strings.Repeat("long-prefix-", 6) + "9-uvwxy", // 81 bytes
 	"-leading-dash", "", "state", "x/y",
+	// what an endpoint or a label might be tempted to rewrite: upper case, '_', '.', Unicode, a second ':',
+	// and ids that are equal up to such rewriting
+	"GW-A-101-ABCDE", "gw_a_101_abcde", "gw.a.101.abcde", "gw-ü-日本-7-äöüß", "GW-ü-日本-7-äöüß",
+	"host.example.com:6443:9-zzzzz", "host.example.com-6443-9-zzzzz", "pre fix/with space-1", "a%3A1",
 }
 
 var upsPool = []string{"u0", "u1", "u2", "u3", "prod.cluster", "u0.gw-a-101-abcde"}
